@@ -96,6 +96,14 @@ class QCircuit:
         for key in reversed(self.qubit_map.keys()):
             if self.qubit_map[key] == i:
                 return key
+
+        # A qubit whose name has been mapped to another qubit (a re-assigned variable)
+        if self.num_qubits is not None and 0 <= i < self.num_qubits:
+            key = f"q{i}"
+            while key in self.qubit_map:
+                key = "_" + key
+            return key
+
         raise Exception(f"Qubit with index {i} not found")
 
     def __repr__(self):
